@@ -85,14 +85,21 @@ CONFIGS = {
                      OPTS=dict(MULTI="PTHREAD", CORES=4)),
     "rsapd-pkcs1": _cfg(OPTS=dict(CP_RSAPD="PKCS1")),
     "rsapd-basic": _cfg(OPTS=dict(CP_RSAPD="BASIC")),
-    "trace256": _cfg(CFLAGS=COMMON + " -fno-inline -fsanitize-coverage=trace-pc", LDFLAGS=""),
+    # CMAKE_TRY_COMPILE_TARGET_TYPE: cmake's compiler check must not link an executable, the trace-pc hook
+    # (__sanitizer_cov_trace_pc) is only defined in the runner
+    "trace256": _cfg(CFLAGS=COMMON + " -fno-inline -fsanitize-coverage=trace-pc", LDFLAGS="",
+                     OPTS=dict(CMAKE_TRY_COMPILE_TARGET_TYPE="STATIC_LIBRARY")),
     "trace255": _cfg(CFLAGS=COMMON + " -fno-inline -fsanitize-coverage=trace-pc", LDFLAGS="",
-                     OPTS=dict(FP_PRIME=255)),
+                     OPTS=dict(FP_PRIME=255, CMAKE_TRY_COMPILE_TARGET_TYPE="STATIC_LIBRARY")),
     "trace381": _cfg(CFLAGS=COMMON + " -fno-inline -fsanitize-coverage=trace-pc", LDFLAGS="",
-                     OPTS=dict(FP_PRIME=381)),
+                     OPTS=dict(FP_PRIME=381, CMAKE_TRY_COMPILE_TARGET_TYPE="STATIC_LIBRARY")),
     "fuzz256": _cfg(CFLAGS=COMMON + " " + SAN + " -fsanitize=fuzzer-no-link",
                     LDFLAGS="-fsanitize=address,undefined"),
 }
+# ep_map_rnd dispatches on the compile-time EP_MAP: the SwiftEC and try-and-increment entry points need own builds
+CONFIGS["map-swift"] = _cfg(OPTS=dict(EP_METHD="PROJC;LWNAF;COMBS;INTER;SWIFT"))
+CONFIGS["map-basic"] = _cfg(OPTS=dict(EP_METHD="PROJC;LWNAF;COMBS;INTER;BASIC"))
+CONFIGS["p381-map-swift"] = _cfg(OPTS=dict(FP_PRIME=381, EP_METHD="PROJC;LWNAF;COMBS;INTER;SWIFT"))
 for _m in ("SH224", "SH384", "SH512", "B2S160", "B2S256"):
     CONFIGS["md-" + _m.lower()] = _cfg(OPTS=dict(MD_METHD=_m))
 for _m in (163, 233, 409, 571):
